@@ -125,14 +125,20 @@ def _symint(x):
     return SymInt(z3.BitVecVal(int(x), core.ENG.W), int(x), int(x))
 
 
-def tdivrem(a, b):
+def tdivrem(a, b, nonzero=False):
     """(a / b truncated toward zero, a % b with the sign of the dividend, 'floor and truncation differ').
     Defined from floor division (Python's // and %, which is also what the engine provides):
         trunc(a/b) = floor(a/b) + 1  and  rem = mod - b   iff  the floor remainder is non-zero and a, b have opposite signs
         trunc(a/b) = floor(a/b)      and  rem = mod        otherwise
     For b == 0 the result is arbitrary (computed with divisor 1); the caller flags it as undefined."""
     z = b == 0
-    if type(b) is SymInt:
+    if nonzero:
+        # the caller has already established b != 0 (premise added to the path): use b itself
+        if type(b) is SymInt and b.lo == 0:
+            b = _bounded(b, 1, b.hi)
+        elif type(b) is SymInt and b.hi == 0:
+            b = _bounded(b, b.lo, -1)
+    elif type(b) is SymInt:
         b1 = ite(z, 1, b)
         if b.lo >= 0:
             b1 = _bounded(b1, 1, max(b.hi, 1))
@@ -174,9 +180,12 @@ def _truth(v):
 class Eval:
     """one evaluation of an expression tree over literal values `lits` in data model `dm`"""
 
-    def __init__(self, dm, lits):
+    def __init__(self, dm, lits, assume=None):
+        """assume: optional callback adding a premise to the current path as soon as it is known (used for
+        'divisor != 0' so that the division terms need no guard); None: premises are only collected in .defined"""
         self.dm = dm
         self.lits = lits
+        self.assume = assume
         self.defined = True
         self.flags = dict(wrap=False, overflow=False, floordiv=False, divzero=False, negshift=False,
                           bigshift=False, neglshift=False)
@@ -329,14 +338,21 @@ class Eval:
                 ov = sym_and(a == dm.lo(t), b == -1)
                 self._flag("overflow", g, ov)
                 self._undef(g, ov)
-            q, r, differs = tdivrem(a, b)
+            nz = False
+            if self.assume is not None and g is True:
+                self.assume(sym_not(z))
+                nz = True
+            q, r, differs = tdivrem(a, b, nz)
             ch = self._chstack.pop()
             if ch is not False and ch is not True and not (e[1][0] == "lit" and e[2][0] == "lit"):
                 # Where no conversion or reduction changed any value inside the operands (not ch), the operands
                 # ARE the exact integer values of the operand expressions, so the quotient/remainder may equally be
                 # taken from those (identity; it keeps the division term independent of the interval
                 # information attached to converted values, which the solver cannot bridge on its own).
-                q0, r0, d0 = tdivrem(self.exact(e[1]), self.exact(e[2]))
+                eb = self.exact(e[2])
+                if nz:
+                    self.assume(sym_or(ch, eb != 0))     # implied by b != 0 where nothing was reduced
+                q0, r0, d0 = tdivrem(self.exact(e[1]), eb, False)
                 q, r, differs = ite(ch, q, q0), ite(ch, r, r0), ite(ch, differs, d0)
             self._flag("floordiv", g, sym_and(sym_not(z), differs))
             if k == "mod":
